@@ -31,6 +31,17 @@ class Check(PropertyCheck):
 
     def generate(self, rng, n, tier):
         for i in range(n):
+            if i % 8 == 7:
+                # the multi-instance environment: illegal decisions (also machine ids that exist only in the padded action
+                # space of a smaller episode instance) between legal steps
+                import C18
+                sc = C18.Check().multi_scenario(rng, inject=0.3)
+                sc.meta["kind"] = "multi"
+                sc.meta["rejected"] = sum(1 for l in sc.lines if l.startswith("mbad"))
+                sc.meta["accepted"] = sum(1 for l in sc.lines if l.startswith("mauto"))
+                sc.meta["bad_kinds"] = ["multi-illegal", "multi-padded-machine"]
+                yield sc
+                continue
             yield self.env_scenario(rng) if i % 4 == 3 else self.scenario(rng, tier)
 
     def env_scenario(self, rng: random.Random) -> Scenario:
@@ -175,6 +186,11 @@ class Check(PropertyCheck):
         lines = scenario.lines
         outs = ctx.setdefault("outs", [])
         outs.append(out)
+        if scenario.meta.get("kind") == "multi":
+            if line.startswith("mbad") and out.startswith("bad ") and not out.endswith("raise"):
+                res.append(("not-rejected", f"`{line}`: the illegal decision {out.split()[1:3]} of the multi-instance "
+                            f"environment was accepted"))
+            return res
         if scenario.meta.get("kind") == "env":
             return self.env_oracle(impl, scenario, index, line, out, ctx)
         # an injected request: 6 probe lines, `mark injected <kind>`, the `disp`, 6 probe lines
